@@ -830,6 +830,21 @@ func (g *Gen) build(t *rapid.T, kind string) *spec {
 			as = append(as, GetUser(rapid.IntRange(0, g.W.NUsers+2).Draw(t, "cmA")).Addr)
 		}
 		thr := uint32(rapid.IntRange(0, sum+1).Draw(t, "cmThr"))
+		// the two lists of different lengths (surplus weights - also over the 1023 limit - or surplus addresses)
+		switch U(t, "cmMismatch", 12) {
+		case 0:
+			for i := 1 + U(t, "cmExtraW", 3); i > 0; i-- {
+				ws = append(ws, uint32(rapid.SampledFrom([]int{1, 1023, 1024, 5000}).Draw(t, "cmExtraWVal")))
+			}
+		case 1:
+			for i := 1 + U(t, "cmExtraA", 3); i > 0; i-- {
+				as = append(as, GetUser(rapid.IntRange(0, g.W.NUsers+2).Draw(t, "cmExtraAVal")).Addr)
+			}
+		case 2:
+			if len(ws) > 1 {
+				ws = ws[:len(ws)-1]
+			}
+		}
 		if kind == "createMultisig" {
 			s.typ = tx.TypeCreateMultisig
 			s.data = tx.CreateMultisigData{Threshold: thr, Weights: ws, Addresses: as}
